@@ -350,7 +350,7 @@ func pathDepth(v ssa.Value, d int) string {
 	v = Unwrap(v)
 	switch x := v.(type) {
 	case *ssa.Parameter:
-		return x.Name()
+		return ParamName(x)
 	case *ssa.FreeVar:
 		return x.Name()
 	case *ssa.Const:
@@ -818,4 +818,129 @@ func ResultOrigins(fn *ssa.Function, i int) []ssa.Value {
 		out = append(out, Origins(r.Results[i])...)
 	}
 	return out
+}
+
+// ---------------------------------------------------------------- a function and its helpers
+
+// Helpers returns the unexported functions of fn's own package that only fn's group calls
+// (transitively, to a small depth): blocks of fn that were moved into functions of their own.
+// Rules anchored at fn look at fn together with these, so that extracting a block into a helper
+// changes no verdict.
+func (c *Ctx) Helpers(fn *ssa.Function) []*ssa.Function {
+	group := map[*ssa.Function]bool{fn: true}
+	var out []*ssa.Function
+	cg := c.CG()
+	for round := 0; round < 3; round++ {
+		added := false
+		var members []*ssa.Function
+		for g := range group {
+			members = append(members, g)
+		}
+		sort.Slice(members, func(i, j int) bool { return members[i].String() < members[j].String() })
+		for _, g := range members {
+			for _, s := range Sites(g) {
+				h := s.Common.StaticCallee()
+				if h == nil || group[h] || h.Blocks == nil || !c.InRepo(h) || PkgOf(h) != PkgOf(fn) {
+					continue
+				}
+				if h.Object() == nil || h.Object().Exported() {
+					continue
+				}
+				only := true
+				for _, cl := range cg.Callers(h) {
+					root := cl
+					for root.Parent() != nil {
+						root = root.Parent()
+					}
+					if !group[root] {
+						only = false
+					}
+				}
+				if only {
+					group[h] = true
+					out = append(out, h)
+					added = true
+				}
+			}
+		}
+		if !added {
+			break
+		}
+	}
+	sort.Slice(out, func(i, j int) bool { return out[i].String() < out[j].String() })
+	return out
+}
+
+// GroupSites lists the call sites of fn, of the closures defined in it, and of its helpers.
+func (c *Ctx) GroupSites(fn *ssa.Function) []*Site {
+	out := SitesDeep(fn)
+	for _, h := range c.Helpers(fn) {
+		out = append(out, SitesDeep(h)...)
+	}
+	return out
+}
+
+// GroupRoot returns the function whose group (fn plus helpers) contains h: h itself when it is
+// exported or has callers outside any single group.
+func (c *Ctx) GroupRoot(h *ssa.Function) *ssa.Function {
+	cur := h
+	for i := 0; i < 3; i++ {
+		if cur.Object() == nil || cur.Object().Exported() {
+			return cur
+		}
+		var root *ssa.Function
+		for _, cl := range c.CG().Callers(cur) {
+			r := cl
+			for r.Parent() != nil {
+				r = r.Parent()
+			}
+			if PkgOf(r) != PkgOf(cur) {
+				return cur
+			}
+			if root == nil {
+				root = r
+			} else if root != r {
+				return cur
+			}
+		}
+		if root == nil || root == cur {
+			return cur
+		}
+		cur = root
+	}
+	return cur
+}
+
+// CallerArg: v is a parameter of a function that has exactly one static call site in the
+// repository: the argument passed there (resolved repeatedly, so a value handed down through
+// two helpers is traced to where it was computed). Otherwise v itself.
+func (c *Ctx) CallerArg(v ssa.Value) ssa.Value {
+	for i := 0; i < 3; i++ {
+		p, ok := Unwrap(v).(*ssa.Parameter)
+		if !ok {
+			return v
+		}
+		fn := p.Parent()
+		idx := -1
+		for k, q := range fn.Params {
+			if q == p {
+				idx = k
+			}
+		}
+		var arg ssa.Value
+		n := 0
+		for _, cl := range c.CG().Callers(fn) {
+			for _, s := range Sites(cl) {
+				if s.Common.StaticCallee() == fn && idx >= 0 && idx < len(s.Common.Args) {
+					n++
+					arg = s.Common.Args[idx]
+				}
+			}
+		}
+		if n != 1 || arg == nil {
+			return v
+		}
+		v = arg
+	}
+	return v
 }
